@@ -34,7 +34,11 @@ Inductive op :=
 | BSetPending (b : bool) (flag : bool) | BGetPending (b : bool) (k : key)
 | BSize (b : bool) | BWrite (b : bool) | BReset (b : bool)
 | BReplayDb (b : bool)             (* Replay(db) *)
-| BReplayB (b : bool).             (* Replay(other batch) *)
+| BReplayB (b : bool)              (* Replay(other batch) *)
+| DbCompact                        (* Compact(nil, nil): flush + full compaction, no observable effect *)
+| DbIterDuring (prefix start : key) (ws : list wop).
+    (* NewIterator(prefix,start); then the direct writes ws; then drain the iterator: the iterator is a
+       snapshot taken at creation (leveldb/pebble snapshots, memorydb copies keys and values up front) *)
 
 Inductive out :=
 | ONone
@@ -104,6 +108,9 @@ Definition step (s : state) (o : op) : state * out :=
       let src := getb s b in
       let dst := getb s (negb b) in
       (setb s (negb b) (fold_left batch_apply (b_ops src) dst), ONone)
+  | DbCompact => (s, ONone)
+  | DbIterDuring p st ws =>
+      (mkState (apply_ops ws (s_db s)) (s_b0 s) (s_b1 s), OList (iterate p st (s_db s)))
   end.
 
 Fixpoint run (s : state) (ops : list op) : list out :=
